@@ -75,8 +75,10 @@ def conv_set(s):
             out.add(rl.EPS)
         elif isinstance(x, Terminal):
             out.add(x.value)
+        elif isinstance(x, str) and x == "$":
+            out.add(rl.END)     # the library's end marker is the bare text "$" (a Terminal called "$" is a symbol)
         else:
-            out.add(x)          # the end marker "$"
+            out.add(x)
     return out
 
 
@@ -188,7 +190,7 @@ def ll1_biased(rng):
             prods.append([h, []])
         elif r < 0.5 and nv > 1:
             prods.append([h, [["V", rng.randrange(nv)] for _ in range(rng.randint(1, 2))]])   # maybe nullable body
-    return {"nv": nv, "nt": nt, "start": 0, "prods": prods, "vc": "str"}
+    return {"nv": nv, "nt": nt, "start": 0, "prods": prods, "vc": rng.choice(["str", "str", "str", "dollar"])}
 
 
 def nullable_body_case(rng):
@@ -277,7 +279,7 @@ def plan(tier, rng, sl, nslices, stats):
         elif i % 2:
             yield ll1_biased(rng)
         else:
-            yield gcfg.random_case(rng, max_vars=3, max_terms=rng.choice([2, 3]), max_prods=6, max_body=3, vcs=["str", "lower"])
+            yield gcfg.random_case(rng, max_vars=3, max_terms=rng.choice([2, 3]), max_prods=6, max_body=3, vcs=["str", "lower", "dollar"])
     if cfg.get("exhaustive"):
         tot = 0
         for i, c in enumerate(gcfg.exhaustive_cases(3)):
@@ -320,4 +322,25 @@ def run_case(c, stats):
         for w in sorted(words, key=lambda x: (len(x), x)):
             call(p.get_llone_parse_tree, values.word_form(w, len(w) + nforms))
             nforms += 1
+    # the same productions under another start symbol (FOLLOW and the table depend on it), in the same process
+    from pyformlang.cfg import CFG, Variable
+    for v in sorted(ref.variables - {ref.start}, key=repr)[:2]:
+        g2 = CFG(start_symbol=Variable(v), productions=set(g.productions))
+        with core.oracle_mode():
+            ref2 = ref_of(g2)
+            if not useless_free(ref2):
+                core.LOG.discard("restarted_grammar_with_useless_symbols")
+                continue
+            _, _, ll1_2, _ = rl.analyse(ref2)
+            L2 = ref2.words(3)
+        stats.cls("restarted")
+        ok, p2 = call(LLOneParser, g2)
+        if ok:
+            call(p2.get_follow_set)
+            call(p2.get_first_set)
+            call(p2.is_llone_parsable)
+            if ll1_2:
+                for w in [()] + sorted(L2, key=lambda x: (len(x), repr(x)))[:6]:
+                    call(p2.get_llone_parse_tree, list(w))
+                    call(p2.get_llone_parse_tree, list(w) + sorted(ref2.terminals, key=repr)[:1])
     return len(ref.prods) >= 2 and bool(L)
